@@ -17,6 +17,7 @@ import (
 	"context"
 	"encoding/json"
 	"fmt"
+	"net"
 	"net/http"
 	"net/http/httptest"
 	"os"
@@ -138,8 +139,11 @@ func c16TextOK(s string) bool {
 
 // ---------------------------------------------------------------- simulated GitLab
 
+type c16CtxKey struct{}
+
 type c16Sim struct {
 	mu        sync.Mutex
+	epoch     int // number of the current import run; a connection belongs to the run during which it was accepted
 	tr        *gTracker
 	page      int
 	log       []string
@@ -186,6 +190,13 @@ func c16Paginate(w http.ResponseWriter, n, page, per int) (lo, hi int) {
 func (s *c16Sim) ServeHTTP(w http.ResponseWriter, r *http.Request) {
 	s.mu.Lock()
 	defer s.mu.Unlock()
+	if ep, _ := r.Context().Value(c16CtxKey{}).(int); ep != s.epoch {
+		// a request of an earlier run: the issue-listing goroutine of a run that returned early may still be asking for
+		// its next page. Every run has its own client and connections, so such a request is recognised and kept out of
+		// this run's log (and cannot use up its injected failure).
+		http.Error(w, `{"message":"410 stale"}`, 410)
+		return
+	}
 	path := strings.TrimPrefix(r.URL.Path, "/api/v4/")
 	parts := strings.Split(strings.Trim(path, "/"), "/")
 	page, _ := strconv.Atoi(r.URL.Query().Get("page"))
@@ -346,10 +357,39 @@ type c16Env struct {
 	problem string
 }
 
+var c16SweepOnce sync.Once
+
+// c16Sweep removes repositories left behind by worker processes that died on a case (a crash of the importer is an
+// observation, but nobody is left to clean up): anything of ours older than 20 minutes.
+func c16Sweep() {
+	for _, base := range []string{"/dev/shm", os.TempDir()} {
+		ents, err := os.ReadDir(base)
+		if err != nil {
+			continue
+		}
+		for _, e := range ents {
+			if !strings.HasPrefix(e.Name(), "verif-c16-") {
+				continue
+			}
+			if fi, err := e.Info(); err == nil && time.Since(fi.ModTime()) > 20*time.Minute {
+				_ = os.RemoveAll(base + "/" + e.Name())
+			}
+		}
+	}
+}
+
 func c16NewEnv(in *c16Input) *c16Env {
+	c16SweepOnce.Do(c16Sweep)
 	e := &c16Env{in: in, bugOps: map[string][]string{}, bugIID: map[string]int{}, idents: map[string]int{}, stable: true}
 	e.sim = &c16Sim{page: in.Page}
-	e.sim.srv = httptest.NewServer(e.sim)
+	e.sim.srv = httptest.NewUnstartedServer(e.sim)
+	sim := e.sim
+	e.sim.srv.Config.ConnContext = func(ctx context.Context, _ net.Conn) context.Context {
+		sim.mu.Lock()
+		defer sim.mu.Unlock()
+		return context.WithValue(ctx, c16CtxKey{}, sim.epoch)
+	}
+	e.sim.srv.Start()
 	must := func(err error) {
 		if err != nil {
 			panic(err)
@@ -357,7 +397,14 @@ func c16NewEnv(in *c16Input) *c16Env {
 	}
 	// a go-git repository on disk: the in-memory test repository keeps its files in a go-billy memfs, which is
 	// not safe for the concurrent sub-cache builds of cache.NewRepoCache
-	dir, err := os.MkdirTemp("", "verif-c16-")
+	base := ""
+	if st, err := os.Stat("/dev/shm"); err == nil && st.IsDir() {
+		base = "/dev/shm" // memory backed: the import rounds are dominated by go-git file I/O
+	}
+	dir, err := os.MkdirTemp(base, "verif-c16-")
+	if err != nil {
+		dir, err = os.MkdirTemp("", "verif-c16-")
+	}
 	must(err)
 	e.dir = dir
 	repo, err := newTestRepo(dir, false)
@@ -387,6 +434,7 @@ func (e *c16Env) close() {
 func (e *c16Env) runRound(rd gRound, fault string) c16Run {
 	var obs c16Run
 	e.sim.mu.Lock()
+	e.sim.epoch++
 	e.sim.tr = &e.in.Snaps[rd.Snap]
 	e.sim.log = nil
 	e.sim.fault = fault
@@ -733,6 +781,20 @@ func c16CoqRun(r c16Run) string {
 	return fmt.Sprintf("mkrobs %s %d %s %s %s %s %d", coqList(rs), len(r.Errors), coqBool(r.Stored), "["+strings.Join(is, "; ")+"]%N", coqList(ds), coqList(qs), r.Invalid)
 }
 
+// c16Stable: what must be the same when a round is replayed on a fresh repository. The issue-listing requests are left
+// out: the listing goroutine is one page ahead of the importer, so when ImportAll returns early (an issue that cannot be
+// created) it is a race whether the next page was already asked for.
+func c16Stable(r c16Run) string {
+	var reqs []string
+	for _, q := range r.Reqs {
+		if !strings.HasPrefix(q, "I/") {
+			reqs = append(reqs, q)
+		}
+	}
+	r.Reqs = reqs
+	return c16CoqRun(r)
+}
+
 // ---------------------------------------------------------------- the driver
 
 type c16Driver struct{}
@@ -838,7 +900,7 @@ func (c16Driver) Run(raw json.RawMessage) Case {
 			env := c16NewEnv(&in)
 			for r := 0; r < in.FaultRound; r++ {
 				o := env.runRound(in.Rounds[r], "")
-				if c16CoqRun(o) != c16CoqRun(clean[r]) {
+				if c16Stable(o) != c16Stable(clean[r]) {
 					stable = false
 					problems = append(problems, fmt.Sprintf("replaying round %d gave a different observation", r))
 				}
@@ -1169,7 +1231,8 @@ func (g *c16Gen) word() string {
 	return s
 }
 func (g *c16Gen) tick() int64 {
-	g.clock += int64(g.r.Range(1, 3))
+	// one time in four within the same second as the previous event (ties between the three event streams)
+	g.clock += int64(g.r.Range(0, 3))
 	return g.clock
 }
 func (g *c16Gen) someUser(allowNull bool) int {
